@@ -114,6 +114,16 @@ def cases(tier):
             idx += 1
             yield {'fam': 'scope', 'nest': [list(levels[i]) for i in nest],
                    'syntax': SYNTAXES[idx % 3]}
+            if d <= (2 if tier == 'quick' else 3) and \
+                    not any(levels[i][0] == 'withonly' for i in nest):
+                # the blocks are the body of a template T (own default for
+                # the probe name) whose innermost level invokes T again:
+                # the re-entrant call sees its defaults on top of whatever
+                # the blocks in between have bound
+                idx += 1
+                yield {'fam': 'scope', 'how': 'reenter',
+                       'nest': [list(levels[i]) for i in nest],
+                       'syntax': SYNTAXES[idx % 3]}
             if d <= 3:
                 # the innermost body raises / returns; an enclosing try (or
                 # the calling template) goes on: nothing may stay bound
@@ -226,6 +236,10 @@ def build_scope(case):
                 return probe('core') + [['var', N('coreboom'), []]]
             if how == 'return':
                 return probe('core') + [['return', N('m0')]]
+            if how == 'reenter':
+                return probe('core') + [
+                    ['unless', N('stop'),
+                     [['let', [['stop', E('1')]], [['var', N('T'), []]]]]]]
             return probe('core')
         kind, rebind = nest[i]
         counter[0] += 1
@@ -282,6 +296,10 @@ def build_scope(case):
         # the blocks live in a sub-template; its dtml-return ends only it
         ns['wrapped'] = ['tmpl', body, {}]
         body = [['var', N('wrapped'), []]]
+    elif how == 'reenter':
+        ns['T'] = ['tmpl', probe('T0') + body + probe('T1'),
+                   {'n': ['lit', 'Tdef']}]
+        body = [['var', N('T'), []]]
     nodes = probe('pre') + body + probe('post')
     return nodes, ns
 
